@@ -304,7 +304,7 @@ class Grammar:
                         changed |= process_reachability(sym, prods)
                 else:
                     if is_terminal(sym, self.non_terminals):
-                        if (sym is int or sym is float or sym is str) and not self.expansion_depthing:
+                        if (sym is int or sym is float or sym is str or sym is bool) and not self.expansion_depthing:
                             val = 0
                         else:
                             val = 1
